@@ -392,13 +392,15 @@ def St.colswap (s : St) (i j : Nat) : Option St :=
 
 /-! ### reduce_rows -/
 
-/-- checked `i128` product of a list -/
+/-- `i128::saturating_mul` -/
+def satMul128 (a b : Int) : Int :=
+  let p := a * b
+  if p < Ymq.Arith.I128MIN then Ymq.Arith.I128MIN else if p > Ymq.Arith.I128MAX then Ymq.Arith.I128MAX else p
+
+/-- `diag.iter().fold(1i128, |acc, &d| acc.saturating_mul(d))` -/
 def prod128 : List Int → Int → Option Int
   | [], acc => some acc
-  | x :: xs, acc =>
-    match chk128 (acc * x) with
-    | none => none
-    | some a => prod128 xs a
+  | x :: xs, acc => prod128 xs (satMul128 acc x)
 
 def St.diag (s : St) (n : Nat) : Option (List Int) := (List.range n).mapM (fun j => get2 s.rows j j)
 
@@ -577,11 +579,9 @@ def St.checkDiag (s : St) (full : Bool) : Option (St × Int) :=
       match get2 s.rows i i with
       | none => none
       | some d =>
-        match chk128 (det * d) with
-        | none => none
-        | some det =>
-          let cols := if full then (List.range s.rows.length).filter (· ≠ i) else List.range i
-          if cols.all (fun j => get2 s.rows i j = some 0) then some (s, det) else none)
+        let det := satMul128 det d
+        let cols := if full then (List.range s.rows.length).filter (· ≠ i) else List.range i
+        if cols.all (fun j => get2 s.rows i j = some 0) then some (s, det) else none)
 
 /-- the `HACK` of `reduce` (orphan generator with relation p^2) -/
 def St.hack (s : St) (det : Int) : Option (St × Int) :=
